@@ -70,27 +70,43 @@ func TestCheck(t *testing.T) {
 		"2-6 cluster + 1-4 foreign validators with pending/active/exiting/exited lifecycles, PRNG attester/proposer/sync assignments (plus BN answers listing foreign and inactive validators), " +
 		"per-slot beacon node failure modes (all calls, one kind, first call only, probabilistic, corrupt pubkey), missed ticks, reorg events at slot boundaries, held offset delays, " +
 		"validator cache refreshed as in app.go (async subscriber / same logic run synchronously) or no cache, duties cache or direct; phase B repeats with feature sse_reorg_duties enabled; " +
+		"phases C1/C2 (early-fetch cases) add fetch_att_on_block / fetch_att_on_block_with_delay with a registered FetchOnly function: every slot is ticked, the fake clock moves in sub-slot steps (before 1/3, at 1/3, before/after the fallback timeout, 2/3, 5/6) and SSE head events are injected before the tick of a slot (after its duties were stored), concurrently with scheduleSlot, at slot start, at every stop, for the next slot, for old and far-future slots, repeatedly, and after the duty fired; offset waits are timers of the fake clock there; " +
 		"non-trivial = at least one no-loss demand was checked and (a failed resolution attempt was followed by a successful one, or ticks were missed, or a reorg un-resolved an epoch); distinct = hash of the scenario description")
 	r.Assume("beacon node model: duties of an epoch never change once served (reorg events do not change assignments); validators answers list exactly the requested cluster pubkeys; activation epochs are reported 4 epochs ahead")
 	r.Assume("'epoch resolved' = one resolveDuties run in which the scheduler received an intact validators answer and intact attester, proposer and sync answers for that epoch; no-loss is demanded only for slots ticked after that run (and until a handled reorg event drops the epoch again)")
 	r.Assume("a trigger of a validator that the chain model calls inactive is tolerated (and counted) when a validators answer given to the scheduler for that epoch listed it as active or activating")
 	r.Assume("no-loss and set-completeness are demanded for a validator only if a validators answer given to the scheduler for that epoch's resolution reported it active, or pending with an activation epoch <= the epoch and not exited; otherwise (cached answer predates the activation after missed first-slot ticks) it is counted as omitted_because_validators_answer_predates_activation, not judged")
+	r.Assume("not-before-its-time is judged on the fake-clock time at which the subscriber is invoked, for every duty type (>= slot start + 1/3 attester, 2/3 aggregator and sync contribution, 0 others); where the scheduler waits on the harness delay channel (released without moving the clock) the deadline handed to the delay function counts as the trigger time")
+	r.Assume("early-fetch cases: the clock handed to the scheduler converts the wall-clock sized duration of `s.clock.After(time.Until(deadline))` (waitForEarlyFetchOrTimeout mixes the wall clock with s.clock) back into the absolute deadline, read later than the scheduler read it, so a trigger can only be observed later, never earlier, than the scheduler meant it")
 	r.Assume("the validator-cache refresh subscriber is a copy of the closure in app/app.go wireCoreWorkflow (not callable from outside)")
-	r.RacePkgs(false, "core/scheduler")
+	// "core": helpers of package core (DutyDefinitionSet.Clone) run on the scheduler's own maps when called from it
+	r.RacePkgs(false, "core/scheduler", "core")
 	r.Require("triggers", 2000)
 	r.Require("no_loss_demands_checked", 1000)
 	r.Require("resolution_attempts_failed", 100)
 	r.Require("advances_with_missed_ticks", 50)
 	r.Require("deadlines_checked", 1000)
+	r.Require("head_events_injected", 1000)
+	r.Require("early_fetch_attester_triggers", 300)
 
 	sink := &logSink{}
 	log.InitJSONForT(t, sink)
 
 	nA := r.N(1500, 45000)
 	nB := r.N(500, 15000)
-	r.Cases(nA, 0, func(c *kit.Case) { runCase(c, c.Rng, "A:default-features", false) })
+	nC := r.N(250, 6000)
+	r.Cases(nA, 0, func(c *kit.Case) { runCase(c, c.Rng, "A:default-features", false, 0) })
+	// Feature flags are process-global: each flag set gets its own phase, phases run one after the other.
 	featureset.EnableForT(t, featureset.SSEReorgDuties)
-	r.Cases(nB, 0, func(c *kit.Case) { runCase(c, r.Rand(c.Idx, 15), "B:sse_reorg_duties", true) })
+	r.Cases(nB, 0, func(c *kit.Case) { runCase(c, r.Rand(c.Idx, 15), "B:sse_reorg_duties", true, 0) })
+	featureset.EnableForT(t, featureset.FetchAttOnBlock)
+	r.Cases(nC, 0, func(c *kit.Case) {
+		runCase(c, r.Rand(c.Idx, 16), "C1:sse_reorg_duties+fetch_att_on_block", true, 1)
+	})
+	featureset.EnableForT(t, featureset.FetchAttOnBlockWithDelay)
+	r.Cases(nC, 0, func(c *kit.Case) {
+		runCase(c, r.Rand(c.Idx, 17), "C2:sse_reorg_duties+fetch_att_on_block+fetch_att_on_block_with_delay", true, 2)
+	})
 
 	if p := os.Getenv("C15_GOROUTINE_DUMP"); p != "" { // diagnostic: goroutines still alive after all cases
 		if f, err := os.Create(p); err == nil {
@@ -104,9 +120,14 @@ func TestCheck(t *testing.T) {
 	})
 }
 
-func runCase(c *kit.Case, rng *rand.Rand, phase string, reorgFeature bool) {
+// runCase runs one scenario. early: 0 = offset waits through the delay function (default features),
+// 1 = early-fetch case with fetch_att_on_block, 2 = early-fetch case with fetch_att_on_block_with_delay too.
+func runCase(c *kit.Case, rng *rand.Rand, phase string, reorgFeature bool, early int) {
 	r := c.R
 	sc := genScenario(rng)
+	if early > 0 {
+		sc.makeEarly(rng, early == 2)
+	}
 	base, err := getBase(sc.SPE, sc.SlotDur)
 	if err != nil {
 		r.Inconclusive("case %d: beaconmock setup failed: %v", c.Idx, err)
@@ -118,9 +139,21 @@ func runCase(c *kit.Case, rng *rand.Rand, phase string, reorgFeature bool) {
 	clock := clockwork.NewFakeClockAt(sc.slotStart(sc.S0).Add(sc.StartOff))
 	h := newHarness(sc, clock)
 	client := h.buildClient(base)
-	sched := scheduler.NewForT(r.T(), clock, h.delay, nil, client, h.hook, false)
+	sclock := &schedClock{FakeClock: clock}
+	sched := scheduler.NewForT(r.T(), sclock, h.delay, nil, client, h.hook, false)
 	sched.SubscribeDuties(h.subscriber(0, true))
 	sched.SubscribeDuties(h.subscriber(1, false))
+	root := eth2p0.Root{0x01}
+	head := func(class string, slot uint64) { // one SSE head event, as the SSE listener would deliver it
+		sched.HandleHeadEvent(ctx, eth2p0.Slot(slot), root, "http://bn")
+		h.mu.Lock()
+		h.headEvents[class]++
+		h.mu.Unlock()
+	}
+	chance := func(p float64, parts ...any) bool { return hashFloat(append([]any{sc.Seed, "head"}, parts...)...) < p }
+	if sc.Early {
+		sched.RegisterFetcherFetchOnly(h.fetchOnlyFunc)
+	}
 	if sc.ValMode == "prod-async" {
 		sched.SubscribeSlots(h.refresh.onSlot) // as app.go: runs in its own goroutine, racing scheduleSlot
 	}
@@ -187,6 +220,28 @@ func runCase(c *kit.Case, rng *rand.Rand, phase string, reorgFeature bool) {
 			_ = h.refresh.onSlot(ctx, ev.slot) // production only logs the error
 		}
 
+		if sc.Early {
+			// Head events while the scheduler is parked before scheduleSlot(slot): the previous slot's
+			// scheduleSlot has returned, so this slot's definitions are stored if its epoch was resolved,
+			// and its attester goroutine has not been started yet.
+			if chance(0.5, "gate", slot) {
+				head("before-tick-of-slot-after-its-duties-were-stored", slot)
+				if chance(0.3, "gate-repeat", slot) {
+					head("repeated-for-same-slot", slot)
+				}
+			}
+			if slot > 0 && chance(0.15, "old", slot) {
+				back := 1 + hash64(sc.Seed, "old-back", slot)%(2*sc.SPE)
+				if back > slot {
+					back = slot
+				}
+				head("old-slot", slot-back)
+			}
+			if chance(0.1, "future", slot) {
+				head("far-future-slot-without-definitions", slot+1000)
+			}
+		}
+
 		if step >= len(sc.Steps) || repeats >= 2 || gate >= maxFrames {
 			break // sentinel gate: the scheduler stays parked in the hook while the oracle waits
 		}
@@ -203,6 +258,61 @@ func runCase(c *kit.Case, rng *rand.Rand, phase string, reorgFeature bool) {
 				h.probeCalls += 3
 				h.mu.Unlock()
 			}(slot)
+		}
+
+		if sc.Early {
+			// the ticker arms one timer per tick: wait until it is armed for the next slot, so that no
+			// sub-slot advance can fall between its clock.Now() and its clock.After()
+			if !kit.WaitUntil(gateWatchdog, func() bool { return sclock.tickerArms.Load() >= int64(gate)+2 }) {
+				inconclusive = "slot ticker did not arm its timer for the next slot within the watchdog"
+				close(ev.release)
+				break
+			}
+			close(ev.release)
+			if chance(0.3, "racing", slot) { // concurrently with scheduleSlot(slot): resolution, duty goroutines starting
+				for i := 0; i < 3; i++ {
+					head("racing-scheduleSlot", slot+uint64(i%2))
+				}
+			}
+			h.settle()
+			if chance(0.3, "start", slot) {
+				head("at-slot-start-after-tick", slot)
+			}
+			// walk through the slot in sub-slot steps; offsets are measured from the slot start
+			third := sc.SlotDur / 3
+			fallback := third
+			if sc.WithDly {
+				fallback += 300 * time.Millisecond
+			}
+			cands := []time.Duration{third / 2, third - time.Millisecond, third, third + 150*time.Millisecond, fallback + 50*time.Millisecond, 2 * sc.SlotDur / 3, 5 * sc.SlotDur / 6}
+			pos := clock.Now().Sub(sc.slotStart(slot))
+			for i, o := range cands {
+				if o <= pos || !chance(0.5, "stop", slot, i) {
+					continue
+				}
+				clock.Advance(o - pos)
+				pos = o
+				h.settle()
+				class := "after-fallback-timeout"
+				switch {
+				case o < third:
+					class = "before-one-third"
+				case o < fallback:
+					class = "after-one-third-before-fallback-timeout"
+				}
+				if chance(0.5, "stop-head", slot, i) {
+					head(class, slot)
+				}
+				if chance(0.25, "stop-next", slot, i) {
+					head("next-slot-before-its-tick", slot+1)
+				}
+				if chance(0.1, "stop-repeat", slot, i) {
+					head("repeated-for-same-slot", slot)
+				}
+			}
+			step++
+			clock.Advance(sc.SlotDur + sc.StartOff - pos) // on to the same offset in the next slot
+			continue
 		}
 
 		backlog := !clock.Now().Before(sc.slotStart(slot + 1)) // the next slot already started: its tick is queued
@@ -233,6 +343,24 @@ func runCase(c *kit.Case, rng *rand.Rand, phase string, reorgFeature bool) {
 
 	// --- end of run: release everything, wait (generously) for the demanded triggers ---
 	heldReleased += h.releaseHeld(true)
+	flush := func() {
+		// move past every offset of the last slots; a duty goroutine that arms its timer late finds its
+		// deadline already passed and is released at once
+		h.settle()
+		clock.Advance(2 * sc.SlotDur)
+		h.settle()
+	}
+	flushes := 0
+	if sc.Early && inconclusive == "" {
+		flush()
+		flushes++
+		for i, t := range h.snap().ticks {
+			if chance(0.3, "after", i) {
+				head("after-duty-triggered", t.Slot)
+			}
+		}
+		h.settle()
+	}
 	var an *analysis
 	lossJudgeable := false
 	if inconclusive == "" {
@@ -245,6 +373,14 @@ func runCase(c *kit.Case, rng *rand.Rand, phase string, reorgFeature bool) {
 			}
 			if ec := h.eventCount(); ec != lastEvents {
 				lastEvents, idleSince = ec, time.Now()
+			}
+			if sc.Early && flushes < 4 && time.Since(idleSince) > 200*time.Millisecond {
+				// a duty goroutine may have armed its timer only after the previous advance
+				flush()
+				flushes++
+				lastEvents, idleSince = h.eventCount(), time.Now()
+
+				continue
 			}
 			// A duty whose validators were only reported as pending to the scheduler's active-validator filter
 			// cannot be pending inside it; the long silence is only required before blaming the trigger path.
@@ -379,6 +515,17 @@ func runCase(c *kit.Case, rng *rand.Rand, phase string, reorgFeature bool) {
 		}
 	}
 	r.Count("scenarios/"+phase, 1)
+	if sc.Early {
+		r.Count("early_fetch_cases", 1)
+		for _, tr := range final.trigs {
+			if tr.Sub == 1 && tr.Duty.Type == core.DutyAttester {
+				r.Count("early_fetch_attester_triggers", 1)
+				if into := tr.Now.Sub(sc.slotStart(tr.Duty.Slot)); into < sc.SlotDur {
+					r.Count("early_fetch_attester_triggers_inside_their_slot", 1)
+				}
+			}
+		}
+	}
 	r.Count("ticks", int64(len(final.ticks)))
 	r.Count("triggers", int64(len(final.trigs)/2))
 	r.Count("no_loss_demands_checked", int64(an.demands))
@@ -396,6 +543,12 @@ func runCase(c *kit.Case, rng *rand.Rand, phase string, reorgFeature bool) {
 	for k, v := range h.bnCalls {
 		r.Count("bn_calls/"+k, int64(v))
 	}
+	for k, v := range h.headEvents {
+		r.Count("head_events/"+k, int64(v))
+		r.Count("head_events_injected", int64(v))
+	}
+	r.Count("early_fetch_only_calls", int64(h.fetchOnly))
+	r.Count("early_fetch_fallback_timers_armed", sclock.fallbackArms.Load())
 	for k, v := range h.served {
 		r.Count("bn_served/"+k, int64(v))
 	}
